@@ -260,7 +260,7 @@ def cN(n):
 
 
 def cZ(n):
-    return "(%d)" % n if n < 0 else "%d" % n
+    return "(%d)%%Z" % n
 
 
 def cstr(s):
